@@ -1624,6 +1624,177 @@ example : Op.step exE exK 10 (.split 3 7) exS 0 ≠ .error .fuel := by
   intro h; have := congrArg (fun r : ORes => match r with | .error .fuel => true | _ => false) h; simp at this; revert this; decide
 end Examples
 
+/-! #### RULE_READINT: the two byte-accumulation loops ARE `readBE` / `readLE` -/
+
+/-- the value RULE_READINT wraps, from the accumulated integer -/
+def rdVal (acc flags : Nat) : Val :=
+  if flags % 16 > 6 then
+    if (flags / 16) % 2 == 1 then .s64 (toSigned acc (flags % 16)) else .u64 acc
+  else
+    if (flags / 16) % 2 == 1 then .int (toSigned acc (flags % 16)) else .int acc
+
+theorem readintVal_eq (t : List Nat) (flags : Nat) :
+    readintVal t flags = rdVal (if (flags / 32) % 2 == 1 then readBE t else readLE t) flags := by
+  simp only [readintVal, rdVal]
+
+theorem readBE_snoc (l : List Nat) (b : Nat) : readBE (l ++ [b]) = readBE l * 256 + b := by
+  simp [readBE, List.foldl_append]
+
+/-- the bytes of the window slice, one by one through the guarded accessor -/
+theorem window_bytes (E : Env) (s : St) (pos w : Nat) (hin : pos + w ≤ s.textEnd) (hwin : s.textEnd ≤ E.text.length) :
+    ((E.text.drop pos).take w).length = w ∧
+    ∀ (i : Nat) (hi : i < w), ∃ b, ((E.text.drop pos).take w)[i]? = some b ∧ E.byte s (pos + i) = .ok b := by
+  have hlen : ((E.text.drop pos).take w).length = w := by simp; omega
+  refine ⟨hlen, fun i hi => ?_⟩
+  have h1 : pos + i < E.text.length := by omega
+  refine ⟨E.text[pos + i], ?_, ?_⟩
+  · simp [List.getElem?_take, hi, h1]
+  · have h2 : pos + i < s.textEnd := by omega
+    simp [Env.byte, h2, h1]
+
+section ReadInt
+variable (E : Env) (k : OK ρ) (flags tag fuel : Nat)
+
+/-- big endian: ascending loop, locals 0 = accum, 1 = i -/
+theorem readint_be_loop (s : St) (pos : Nat) (t : List Nat) (ht : t.length = flags % 16) (hw : flags % 16 ≤ 8)
+    (hb : ∀ b ∈ t, b < 256) (hbyte : ∀ i, i < flags % 16 → ∃ b, t[i]? = some b ∧ E.byte s (pos + i) = .ok b) :
+    ∀ (m f : Nat) (L : Loc), m = flags % 16 - L.num 1 → m + 1 ≤ f → L.ptr 0 = some pos → L.num 1 ≤ flags % 16 →
+      L.num 0 = readBE (t.take (L.num 1)) → L.num 0 < 256 ^ L.num 1 →
+      ∃ L', loopN (fun L s => evalCond E (ops [] [(1, flags), (2, tag)] : Operands ρ) L s (.numLtWord 1 (.lowBits 1 4)))
+          (fun L s => execL E k (ops [] [(1, flags), (2, tag)]) fuel Gen.PegSkel.RULE_READINT_body0 L s) f L s = .ok (.cont L' s) ∧
+        L'.ptr 0 = some pos ∧ L'.num 0 = readBE t := by
+  have hcond : ∀ (L : Loc) (s : St), evalCond E (ops [] [(1, flags), (2, tag)] : Operands ρ) L s (.numLtWord 1 (.lowBits 1 4)) =
+      decide (L.num 1 < flags % 16) := by
+    intro L s; simp [evalCond, evalWE, ops, opsWord]
+  intro m
+  induction m with
+  | zero =>
+    intro f L hm hf hp hi hacc _
+    obtain ⟨f', rfl⟩ : ∃ f', f = f' + 1 := ⟨f - 1, by omega⟩
+    have hge : ¬ L.num 1 < flags % 16 := by omega
+    refine ⟨L, by simp [loopN, hcond, hge], hp, ?_⟩
+    rw [hacc, List.take_of_length_le (by omega)]
+  | succ m ih =>
+    intro f L hm hf hp hi hacc hlt
+    obtain ⟨f', rfl⟩ : ∃ f', f = f' + 1 := ⟨f - 1, by omega⟩
+    have hlt1 : L.num 1 < flags % 16 := by omega
+    obtain ⟨b, hb1, hb2⟩ := hbyte (L.num 1) hlt1
+    have hbm : b ∈ t := List.mem_of_getElem? hb1
+    have hb256 := hb b hbm
+    have hsmall : L.num 0 * 256 + b < 18446744073709551616 := by
+      have h1 : L.num 0 + 1 ≤ 256 ^ L.num 1 := hlt
+      have h2 : 256 ^ L.num 1 * 256 ≤ 256 ^ 7 * 256 := Nat.mul_le_mul_right _ (Nat.pow_le_pow_right (by decide) (by omega))
+      have h3 : (L.num 0 + 1) * 256 ≤ 256 ^ L.num 1 * 256 := Nat.mul_le_mul_right _ h1
+      have : (256 : Nat) ^ 7 * 256 = 18446744073709551616 := by decide
+      omega
+    have hbody : execL E k (ops [] [(1, flags), (2, tag)]) fuel Gen.PegSkel.RULE_READINT_body0 L s =
+        .ok (.cont { L with num := upd (upd L.num 0 (L.num 0 * 256 + b)) 1 (L.num 1 + 1) } s) := by
+      simp [Gen.PegSkel.RULE_READINT_body0, execL, execStmt, evalNE, hp, hb2, upd, bind, Except.bind, Nat.mod_eq_of_lt hsmall]
+    simp only [loopN, hcond, hlt1, decide_true, if_true, hbody, bind, Except.bind]
+    exact ih f' { L with num := upd (upd L.num 0 (L.num 0 * 256 + b)) 1 (L.num 1 + 1) } (by simp [upd]; omega) (by omega)
+      (by simpa using hp) (by simp [upd]; omega)
+      (by simp only [upd]; simp only [if_true, show (0 : Nat) ≠ 1 by decide, if_false]
+          rw [List.take_add_one, hb1, Option.toList, readBE_snoc, ← hacc])
+      (by simp only [upd]; simp only [if_true, show (0 : Nat) ≠ 1 by decide, if_false]
+          have h1 : L.num 0 + 1 ≤ 256 ^ L.num 1 := hlt
+          have h3 : (L.num 0 + 1) * 256 ≤ 256 ^ L.num 1 * 256 := Nat.mul_le_mul_right _ h1
+          rw [Nat.pow_succ]; omega)
+
+/-- little endian: descending loop from the last byte of the slice -/
+theorem readint_le_loop (s : St) (pos : Nat) (t : List Nat) (ht : t.length = flags % 16) (hw : flags % 16 ≤ 8)
+    (hb : ∀ b ∈ t, b < 256) (hbyte : ∀ i, i < flags % 16 → ∃ b, t[i]? = some b ∧ E.byte s (pos + i) = .ok b) :
+    ∀ (j : Nat) (L : Loc), j ≤ flags % 16 → L.ptr 0 = some pos → L.num 0 = readLE (t.drop j) → L.num 0 < 256 ^ (flags % 16 - j) →
+      ∃ L', downN 1 (fun L s => execL E k (ops [] [(1, flags), (2, tag)]) fuel Gen.PegSkel.RULE_READINT_body1 L s) j L s = .ok (.cont L' s) ∧
+        L'.ptr 0 = some pos ∧ L'.num 0 = readLE t := by
+  intro j
+  induction j with
+  | zero => intro L _ hp hacc _; exact ⟨L, by simp [downN], hp, by simpa using hacc⟩
+  | succ j ih =>
+    intro L hj hp hacc hlt
+    have hj1 : j < flags % 16 := by omega
+    obtain ⟨b, hb1, hb2⟩ := hbyte j hj1
+    have hbm : b ∈ t := List.mem_of_getElem? hb1
+    have hb256 := hb b hbm
+    have hsmall : L.num 0 * 256 + b < 18446744073709551616 := by
+      have h1 : L.num 0 + 1 ≤ 256 ^ (flags % 16 - (j + 1)) := hlt
+      have h2 : 256 ^ (flags % 16 - (j + 1)) * 256 ≤ 256 ^ 7 * 256 := Nat.mul_le_mul_right _ (Nat.pow_le_pow_right (by decide) (by omega))
+      have h3 : (L.num 0 + 1) * 256 ≤ 256 ^ (flags % 16 - (j + 1)) * 256 := Nat.mul_le_mul_right _ h1
+      have : (256 : Nat) ^ 7 * 256 = 18446744073709551616 := by decide
+      omega
+    have hjl : j < t.length := by omega
+    have hbj : t[j] = b := by
+      have := List.getElem?_eq_getElem hjl
+      rw [this] at hb1; exact Option.some.inj hb1
+    have hbody : execL E k (ops [] [(1, flags), (2, tag)]) fuel Gen.PegSkel.RULE_READINT_body1 { L with num := upd L.num 1 j } s =
+        .ok (.cont { L with num := upd (upd L.num 1 j) 0 (L.num 0 * 256 + b) } s) := by
+      simp [Gen.PegSkel.RULE_READINT_body1, execL, execStmt, hp, hb2, upd, bind, Except.bind, Nat.mod_eq_of_lt hsmall]
+    simp only [downN, hbody, bind, Except.bind]
+    exact ih { L with num := upd (upd L.num 1 j) 0 (L.num 0 * 256 + b) } (by omega) (by simpa using hp)
+      (by simp only [upd, if_true]; rw [List.drop_eq_getElem_cons hjl, hbj, readLE, ← hacc]; omega)
+      (by simp only [upd, if_true]
+          have h1 : L.num 0 + 1 ≤ 256 ^ (flags % 16 - (j + 1)) := hlt
+          have h3 : (L.num 0 + 1) * 256 ≤ 256 ^ (flags % 16 - (j + 1)) * 256 := Nat.mul_le_mul_right _ h1
+          have : flags % 16 - j = (flags % 16 - (j + 1)) + 1 := by omega
+          rw [this, Nat.pow_succ]; omega)
+
+/-- what follows both loops: wrap, push, return -/
+theorem readint_rest (s : St) (pos : Nat) (L : Loc) (hp : L.ptr 0 = some pos) :
+    execL E k (ops [] [(1, flags), (2, tag)]) fuel Gen.PegSkel.RULE_READINT_rest0 L s =
+      .ok (.ret (some (pos + flags % 16), pushcap E s (rdVal (L.num 0) flags) tag)) := by
+  simp only [Gen.PegSkel.RULE_READINT_rest0, execL, execStmt, evalCond, evalVE, evalWE, ops, opsWord, rdVal]
+  by_cases h6 : flags % 16 > 6 <;> by_cases hs : (flags / 16) % 2 = 1 <;> simp [h6, hs, hp, upd, bind, Except.bind]
+
+/-- RULE_READINT: `rule[1] & 0xF` bytes inside the window, accumulated big endian (bit 5) or little endian, wrapped signed
+    (bit 4) or unsigned, as an int-type above 6 bytes.  Hypotheses: the window lies inside the text (the model's invariant
+    `never_reads_outside`), the width is at most 8 (spec_readint; the C's uint64_t accumulator wraps beyond), text elements are
+    bytes.  `fuel` = IR loop fuel of the ascending loop. -/
+theorem rule_readint (n : Nat) (s : St) (pos : Nat) (hwin : s.textEnd ≤ E.text.length) (hw : flags % 16 ≤ 8)
+    (hb : ∀ b ∈ E.text, b < 256) (hf : 10 ≤ fuel) :
+    runL E k (ops [] [(1, flags), (2, tag)]) fuel Gen.PegSkel.RULE_READINT s pos = Op.step E k n (.readint flags tag) s pos := by
+  simp only [runL, Gen.PegSkel.RULE_READINT, execL, execStmt, evalCond, evalNE, evalWE, Loc.init, Op.step]
+  have hword : (ops [] [(1, flags), (2, tag)] : Operands ρ).word 1 = flags := by simp [ops, opsWord]
+  simp only [hword, show (2 : Nat) ^ 4 = 16 by decide, show (2 : Nat) ^ 5 = 32 by decide, if_true]
+  by_cases hout : pos + flags % 16 > s.textEnd
+  · simp [hout]
+  · have hin : pos + flags % 16 ≤ s.textEnd := by omega
+    obtain ⟨hlen, hbyte⟩ := window_bytes E s pos (flags % 16) hin hwin
+    have hbt : ∀ b ∈ (E.text.drop pos).take (flags % 16), b < 256 :=
+      fun b hb' => hb b (List.mem_of_mem_drop (List.mem_of_mem_take hb'))
+    have hslice : E.slice s pos (pos + flags % 16) = .ok ((E.text.drop pos).take (flags % 16)) := by
+      simp [Env.slice, hin]; omega
+    simp only [hout, decide_false, Bool.false_eq_true, if_false, hslice, bind, Except.bind, readintVal_eq]
+    by_cases hbe : (flags / 32) % 2 = 1
+    · simp only [hbe, beq_self_eq_true, if_true]
+      obtain ⟨L', g1, g2, g3⟩ := readint_be_loop E k flags tag fuel s pos _ hlen hw hbt hbyte (flags % 16) fuel
+        { ptr := fun x => if x = 0 then some pos else none, cs := fun _ => ⟨0, 0, 0⟩, val := fun _ => .nil,
+          num := upd (upd (fun _ => 0) 0 0) 1 0, oldmode := false }
+        (by simp [upd]) (by omega) (by simp) (by simp [upd]) (by simp [upd, readBE]) (by simp [upd])
+      simp only [evalCond, evalWE, hword, show (2 : Nat) ^ 4 = 16 by decide] at g1
+      rw [g1]
+      simp only [readint_rest E k flags tag fuel s pos L' g2, g3]
+    · have hbe' : ((flags / 32) % 2 == 1) = false := by simpa using hbe
+      simp only [hbe', Bool.false_eq_true, if_false]
+      obtain ⟨L', g1, g2, g3⟩ := readint_le_loop E k flags tag fuel s pos _ hlen hw hbt hbyte (flags % 16)
+        { ptr := fun x => if x = 0 then some pos else none, cs := fun _ => ⟨0, 0, 0⟩, val := fun _ => .nil,
+          num := upd (fun _ => 0) 0 0, oldmode := false }
+        (Nat.le_refl _) (by simp) (by simp [upd, hlen.symm ▸ List.drop_length, readLE]) (by simp [upd])
+      rw [g1]
+      simp only [show Gen.PegSkel.RULE_READINT_rest1 = Gen.PegSkel.RULE_READINT_rest0 from rfl,
+        readint_rest E k flags tag fuel s pos L' g2, g3]
+
+end ReadInt
+
+
+theorem rule_readint_returns {ρ : Type} (E : Env) (k : OK ρ) (flags tag n : Nat) (s : St) (pos : Nat) (hwin : s.textEnd ≤ E.text.length)
+    (hw : flags % 16 ≤ 8) (hb : ∀ b ∈ E.text, b < 256) :
+    Returns (fun fuel => runL E k (ops [] [(1, flags), (2, tag)]) fuel Gen.PegSkel.RULE_READINT s pos)
+      (Op.step E k n (.readint flags tag) s pos) :=
+  ⟨10, fun fuel hf => rule_readint E k flags tag fuel n s pos hwin hw hb hf⟩
+
+-- two bytes "bc" at 1, little endian unsigned = 98 + 256 * 99; big endian = 98 * 256 + 99
+example : (runL exE exK (ops [] [(1, 2), (2, 0)]) 10 Gen.PegSkel.RULE_READINT exS 1).toOption.map (fun x => x.2.caps.length) = some 1 := rfl
+example : (runL exE exK (ops [] [(1, 4), (2, 0)]) 10 Gen.PegSkel.RULE_READINT exS 1).toOption.map (·.1) = some none := rfl
+
 section Decoded
 open JanetModel.Gen.Peg
 
@@ -1974,6 +2145,18 @@ theorem decoded_sequence (E : Env) (k : OK Nat) (n : Nat) (P : Program) (pc : Na
           simp [hlt, h1]) E k fuel _ (by decide) s pos
   rw [hc]
   exact rule_sequence_returns E k n _ s pos
+
+theorem decoded_readint (E : Env) (k : OK Nat) (n : Nat) (P : Program) (pc : Nat) (s : St) (pos : Nat)
+    (hpc : pc < P.bytecode.size) (hop : P.word pc = RULE_READINT) (hwin : s.textEnd ≤ E.text.length)
+    (hw : P.word (pc + 1) % 16 ≤ 8) (hb : ∀ b ∈ E.text, b < 256) :
+    ∃ i, decode P pc = some i ∧
+      Returns (fun fuel => runL E k (rawOps P pc 3) fuel Gen.PegSkel.RULE_READINT s pos) (Op.step E k n i s pos) := by
+  refine ⟨.readint (P.word (pc + 1)) (P.word (pc + 2)), by decode_tac hpc hop, ?_⟩
+  have hc : (fun fuel => runL E k (rawOps P pc 3) fuel Gen.PegSkel.RULE_READINT s pos) =
+      (fun fuel => runL E k (ops [] [(1, P.word (pc + 1)), (2, P.word (pc + 2))]) fuel Gen.PegSkel.RULE_READINT s pos) :=
+    funext fun fuel => runL_congr (f := { w := [1, 2] }) (by agree_tac) E k fuel _ (by decide) s pos
+  rw [hc]
+  exact rule_readint_returns E k _ _ n s pos hwin hw hb
 
 end Decoded
 
